@@ -8,3 +8,4 @@ from . import c_constants  # noqa: F401
 from . import c_line_mapping  # noqa: F401
 from . import c_json  # noqa: F401
 from . import c_code_data  # noqa: F401
+from . import c_frame  # noqa: F401
